@@ -359,6 +359,8 @@ def first_diff(a, b):
         if not tok_same(x, y, True):
             what = {'P': 'item offset/section head', 'S': 'section size or contents', 'LR': 'label reference value'}.get(
                 sect, 'jmpi through label table' if y.startswith('J:') else 'outcome')
+            if y.startswith('LA:'):
+                what = 'addresses of adjacent labels (model C14/Labels.v: a label and its last_label have one address)'
             return '%s: implementation %s, model %s' % (what, x[:80], y[:80])
     return 'different number of observations (implementation: %s)' % a[:120]
 
